@@ -1,4 +1,4 @@
-CONSTANTS MaxLen = 5 Keys = {0, 5, 43, 127} BADCTR = FALSE
+CONSTANTS MaxLen = 5 Keys = {0, 5, 43, 127} LocalMax = 5 BADCTR = FALSE
 INIT Init
 NEXT Next
 INVARIANT Inv
